@@ -73,6 +73,8 @@ def fill_values(t, fill, length, first=0):
     {'anchors': [...], 'stride': int, 'salt': int}.  Integers: anchors[i % k] -/+ (i*stride + salt) % 65521, away from the nearer end of
     the type's range, wrapped into it (neighbours differ, all bytes vary).  BOOL: anchors[i % k] flipped on odd blocks / by salt.
     Floats: full-range anchors on even indices, the exact index-identifying value i*stride+salt on odd ones."""
+    if 'const' in fill:              # every element the same value (e.g. +0.0 everywhere, then -0.0 written over it)
+        return [fill['const']] * length
     anchors, stride, salt = fill['anchors'], fill['stride'], fill.get('salt', 0)
     k = len(anchors)
     out = []
@@ -816,8 +818,17 @@ def write_cases(draw, max_bytes):
     order = None
     if len(pieces) > 1 and draw(st.integers(0, 2)) == 0:
         order = draw(st.lists(st.integers(0, 7), min_size=1, max_size=min(len(pieces), 12)))
+    old, new = draw(fill_strategy(t)), draw(fill_strategy(t))
+    if draw(st.integers(0, 7)) == 0:
+        # values that compare equal but are different bit patterns / differ in one place only: a fragment that "changes nothing"
+        # by == must still be stored (floats: -0.0 over +0.0 and back; integers: the same recipe with one anchor changed)
+        if t in M.FLOAT_TYPES:
+            old, new = draw(st.sampled_from([({'const': 0.0}, {'const': -0.0}), ({'const': -0.0}, {'const': 0.0})]))
+        else:
+            new = dict(old, anchors=list(old['anchors']))
+            new['anchors'][0] = draw(tagcheck.value_of(t))
     return {'kind': 'write', 'type': t, 'length': L, 'elem': elem, 'count': n, 'pieces': pieces, 'order': order,
-            'drive': draw(st.sampled_from(['us', 'us', 'msp'])), 'old': draw(fill_strategy(t)), 'new': draw(fill_strategy(t))}
+            'drive': draw(st.sampled_from(['us', 'us', 'msp'])), 'old': old, 'new': new}
 
 
 @st.composite
